@@ -31,7 +31,10 @@ import (
 )
 
 type op struct {
-	Kind   string // write, bigwrite, snapshot, compact, delete, drop, reopen
+	Kind   string // write, bigwrite, snapshot, compact, compactfiles, delete, drop, reopen
+	From   int    // compactfiles: first file of the adjacent run
+	N      int    // compactfiles: files in the run
+	Fast   bool   // compactfiles: fast (undecoded) strategy
 	Points []model.Point
 	CKind  storesim.CompactKind
 	Pick   int
@@ -49,6 +52,7 @@ type op struct {
 type plan struct {
 	Index         string
 	CompactorSize int
+	ImageMode     int
 	Phases        [][]op // phase 0 on a fresh store; phase d on images of phase d-1
 	Tape          []uint64
 	MaxImages     []int
@@ -56,7 +60,18 @@ type plan struct {
 }
 
 func genOp(t *rapid.T, label string) op {
-	switch k := rapid.IntRange(0, 21).Draw(t, label+".kind"); {
+	switch k := rapid.IntRange(0, 24).Draw(t, label+".kind"); {
+	case k >= 22:
+		// an arbitrary adjacent run of the shard's files compacted with the
+		// engine's own strategy: the planner's levels rarely offer a group in
+		// a short history, so without this step almost no crash point falls
+		// inside a compaction that replaces several files
+		// (0-2 write+snapshot pairs first, so that there are files to compact)
+		o := op{Kind: "compactfiles", From: rapid.IntRange(0, 3).Draw(t, label+".from"), N: rapid.IntRange(2, 4).Draw(t, label+".n"), Fast: rapid.Bool().Draw(t, label+".fast")}
+		for j, n := 0, rapid.IntRange(0, 2).Draw(t, label+".layers"); j < n; j++ {
+			o.Reps = append(o.Reps, storesim.GenBatch(t, 3, fmt.Sprintf("%s.l%d", label, j)))
+		}
+		return o
 	case k >= 20:
 		// a cache snapshot whose new file cannot be made durable (I/O error
 		// at its fsync): it fails, the cache keeps what it held, and later
@@ -172,6 +187,11 @@ func genPlan(t *rapid.T) interface{} {
 	p.Index = rapid.SampledFrom([]string{"inmem", "tsi1"}).Draw(t, "index")
 	p.CompactorSize = rapid.SampledFrom([]int{0, 2, 3, 10, 100}).Draw(t, "compactor_size")
 	depth := rapid.IntRange(1, 3).Draw(t, "depth")
+	// where the crash images of a phase fall: 0 = at three events in four from
+	// the phase's start (dense, early), 1 = about one event in eight, 2 = about
+	// one in thirty-two (spread over the whole phase), 3 = dense, but only
+	// inside snapshots, compactions, deletes and restarts
+	p.ImageMode = rapid.IntRange(0, 3).Draw(t, "image_mode")
 	for d := 0; d < depth; d++ {
 		max := 14
 		if d > 0 {
@@ -228,6 +248,8 @@ func (r *runner) phase(root string, depth int, acked *model.Shard, inflight *sto
 		budget = 0
 	}
 	var cur *storesim.Inflight
+	var curOp string // kind of the operation in flight, for the reach probes
+	var sim *storesim.Sim
 	var m *model.Shard // acknowledged model during this phase
 	evN := 0
 	handler := func(ev string, args ...interface{}) {
@@ -258,8 +280,23 @@ func (r *runner) phase(root string, depth int, acked *model.Shard, inflight *sto
 			return
 		}
 		// value 0 (what shrinking converges to) means "no image here"
-		if r.tape.Next()%4 == 0 {
-			return
+		switch v := r.tape.Next(); r.p.ImageMode {
+		case 1:
+			if v%8 != 1 {
+				return
+			}
+		case 2:
+			if v%32 != 1 {
+				return
+			}
+		case 3:
+			if v%4 == 0 || m != nil && (cur == nil || cur.Kind == "write") {
+				return
+			}
+		default:
+			if v%4 == 0 {
+				return
+			}
 		}
 		budget--
 		r.nimg++
@@ -291,12 +328,19 @@ func (r *runner) phase(root string, depth int, acked *model.Shard, inflight *sto
 		if strings.HasPrefix(ev, "wal.recover") {
 			run.Probe("crash-during-recovery")
 		}
+		if m != nil && curOp != "" {
+			run.Probe("crash-inside-" + curOp)
+			if fs, _ := filepath.Glob(filepath.Join(root, "data", "*", "*", "*", "*.tsm")); len(fs) >= 2 {
+				run.Probe("crash-with-several-data-files")
+			}
+		}
 		images = append(images, im)
 	}
 	verifhook.SetPoint(handler)
 	defer verifhook.SetPoint(nil)
 
-	sim, err := storesim.Open(root, storesim.Opts{Index: r.p.Index, CompactorSize: r.p.CompactorSize})
+	var err error
+	sim, err = storesim.Open(root, storesim.Opts{Index: r.p.Index, CompactorSize: r.p.CompactorSize})
 	if err != nil {
 		run.Fail("store-open-failed-after-crash", "", "%s: Store.Open: %v", label, err)
 		return
@@ -362,6 +406,7 @@ func (r *runner) phase(root string, depth int, acked *model.Shard, inflight *sto
 		core.Progress()
 		run.Op(o.Kind)
 		run.Logf("%s op%d %s", label, i, o.Kind)
+		curOp = o.Kind
 		switch o.Kind {
 		case "write", "bigwrite":
 			cur = &storesim.Inflight{Kind: "write", Points: o.Points}
@@ -434,6 +479,36 @@ func (r *runner) phase(root string, depth int, acked *model.Shard, inflight *sto
 			}
 			if n > 0 {
 				run.Probe("compaction-" + o.CKind.String())
+			}
+		case "compactfiles":
+			for _, batch := range o.Reps {
+				cur = &storesim.Inflight{Kind: "write", Points: batch}
+				err := sim.Write(shardID, batch)
+				cur = nil
+				if err != nil {
+					run.Fail("write-failed", "", "%s op%d: WriteToShard: %v", label, i, err)
+					break
+				}
+				m.Write(batch)
+				cur = &storesim.Inflight{Kind: "other"}
+				err = sim.Snapshot(shardID)
+				cur = nil
+				if err != nil {
+					run.Fail("snapshot-failed", "", "%s op%d: WriteSnapshot: %v", label, i, err)
+					break
+				}
+			}
+			if run.Failed() {
+				break
+			}
+			cur = &storesim.Inflight{Kind: "other"}
+			n, err := sim.CompactFiles(shardID, o.From, o.N, o.Fast)
+			cur = nil
+			if err != nil {
+				run.Fail("harness-error", "", "compactfiles: %v", err)
+			}
+			if n > 0 {
+				run.Probe("compaction-arbitrary-group")
 			}
 		case "delete":
 			keys, known := matching(m, o.Meas, o.Preds)
@@ -542,6 +617,8 @@ func describe(pl interface{}) interface{} {
 				ops = append(ops, s+")")
 			case "compact":
 				ops = append(ops, fmt.Sprintf("compact(%s,%d)", o.CKind, o.Pick))
+			case "compactfiles":
+				ops = append(ops, fmt.Sprintf("compactfiles(%d,%d,fast=%v)", o.From, o.N, o.Fast))
 			case "delete":
 				ops = append(ops, fmt.Sprintf("delete(%s where %q)", o.Meas, o.Cond))
 			case "dropmeas":
@@ -552,7 +629,7 @@ func describe(pl interface{}) interface{} {
 		}
 		phases = append(phases, ops)
 	}
-	return map[string]interface{}{"index": p.Index, "compactor_size": p.CompactorSize, "phases": phases, "tape_prefix": p.Tape[:16]}
+	return map[string]interface{}{"index": p.Index, "compactor_size": p.CompactorSize, "image_mode": p.ImageMode, "phases": phases, "tape_prefix": p.Tape[:16]}
 }
 
 func warmup() {
@@ -581,7 +658,7 @@ func TestC01(t *testing.T) {
 		Warmup:         warmup,
 		Describe:       describe,
 		Tier:           "A",
-		RequiredProbes: []string{"image-verified", "crash-during-recovery", "snapshot-failed-cache-kept", "snapshot-succeeded-after-failed-attempts"},
+		RequiredProbes: []string{"image-verified", "crash-during-recovery", "snapshot-failed-cache-kept", "snapshot-succeeded-after-failed-attempts", "crash-inside-compactfiles", "crash-inside-delete", "crash-inside-snapshot", "crash-with-several-data-files"},
 		Real:           []string{"tsdb.Store", "tsdb.Shard", "tsm1.Engine", "tsm1.WAL", "tsm1.Cache", "tsm1.Compactor", "tsm1.FileStore", "tsm1.Tombstoner", "tsdb.SeriesFile", "index inmem/tsi1", "real files on tmpfs"},
 		Stub:           []string{"none (durability is the SimDisk loss model)"},
 		Assumptions: []string{
@@ -589,6 +666,6 @@ func TestC01(t *testing.T) {
 			"directory operations are durable in program order (ordered-metadata model); arbitrary reordering of un-synced directory operations is not modelled",
 			"index and series files are copied as written (treated as durable)",
 		},
-		Rule: "a run = seeded history of writes/snapshots/compactions/deletes/reopens on a real store, incl. cache snapshots that fail 1-3 times at the new file's fsync with further writes in between before one succeeds, with crash images cut at seeded hook events; non-trivial = at least one crash image was opened and verified; distinct = distinct (op-kind multiset, fault kinds fired, probes hit, final model digest)",
+		Rule: "a run = seeded history of writes/snapshots/compactions (planner levels, full, optimize, and arbitrary runs of whole generations preceded by write+snapshot layers)/deletes/reopens on a real store, crash images placed by one of four seeded modes (dense from the start, one event in eight, one in thirty-two, dense inside background operations only), incl. cache snapshots that fail 1-3 times at the new file's fsync with further writes in between before one succeeds, with crash images cut at seeded hook events; non-trivial = at least one crash image was opened and verified; distinct = distinct (op-kind multiset, fault kinds fired, probes hit, final model digest)",
 	})
 }
